@@ -122,8 +122,6 @@ func (w *Writer) writeInner(fr frame.Frame) error {
 		}
 	}
 
-	w.nextSeqNumber++
-
 	if w.FrameWriter.DialectRW == nil {
 		return fmt.Errorf("dialect is nil")
 	}
@@ -154,5 +152,14 @@ func (w *Writer) writeInner(fr frame.Frame) error {
 		ff.Signature = ff.GenerateSignature(w.Key)
 	}
 
-	return w.FrameWriter.Write(fr)
+	err := w.FrameWriter.Write(fr)
+	if err != nil {
+		return err
+	}
+
+	// a sequence number is consumed by written frames only,
+	// so that refused messages do not appear as lost frames to the receiver
+	w.nextSeqNumber++
+
+	return nil
 }
